@@ -1,1 +1,22 @@
-fn main() { println!("hi"); }
+//! `vh <engine> <cases.ndjson> <trace.ndjson>`: drives the real http-serve code with the given
+//! cases and records observations. Contains no oracle; TLC judges the traces.
+
+mod common;
+mod entity;
+mod lex;
+mod serve_eng;
+
+fn main() {
+    let a: Vec<String> = std::env::args().collect();
+    if a.len() < 4 {
+        eprintln!("usage: vh <serve|stream|neg|file|dir> <cases.ndjson> <trace.ndjson>");
+        std::process::exit(2);
+    }
+    match a[1].as_str() {
+        "serve" => serve_eng::run(&a[2], &a[3]),
+        e => {
+            eprintln!("unknown engine {e}");
+            std::process::exit(2);
+        }
+    }
+}
